@@ -143,3 +143,196 @@ Example ex_prior_accepts_only_wf_hyp :
   Regular ex_mean /\ prior_iwp Dense ex_mean APyBool ANone = Accept /\
   prior_exp Dense (AJetOdeAuto 2) ex_mean APyBool ANone = Accept.
 Proof. repeat split; try (vm_compute; reflexivity); simpl; try discriminate; auto. Qed.
+
+(* ------------------------------------------------------------ base scales *)
+Lemma struct_list : forall xs ys, struct_eqb (AList xs) (AList ys) = forall2b struct_eqb xs ys.
+Proof.
+  induction xs as [|x xs IH]; intros [|y ys]; simpl; auto.
+  specialize (IH ys). simpl in IH. rewrite IH. reflexivity.
+Qed.
+
+Lemma struct_tuple : forall xs ys, struct_eqb (ATuple xs) (ATuple ys) = forall2b struct_eqb xs ys.
+Proof.
+  induction xs as [|x xs IH]; intros [|y ys]; simpl; auto.
+  specialize (IH ys). simpl in IH. rewrite IH. reflexivity.
+Qed.
+
+Lemma struct_dict : forall xs ys, struct_eqb (ADict xs) (ADict ys) = forall2b_kv struct_eqb xs ys.
+Proof.
+  induction xs as [|[k x] xs IH]; intros [|[k' y] ys]; simpl; auto.
+  specialize (IH ys). simpl in IH. rewrite IH. reflexivity.
+Qed.
+
+Lemma sameshape_struct : forall a b, SameShape a b -> struct_eqb a b = true.
+Proof.
+  induction a using aval_ind'; intros b Hab.
+  - destruct b; try (simpl in Hab; tauto).
+    apply SameShape_list in Hab. destruct Hab as [_ Hab]. rewrite struct_list.
+    revert xs0 Hab. induction H as [|x l Hx Hl IH]; intros ys Hab;
+      inversion Hab as [|x0 y0 xs1 ys1 P1 P2]; subst; simpl; auto.
+    rewrite (Hx _ P1), (IH _ P2). reflexivity.
+  - destruct b; try (simpl in Hab; tauto).
+    apply SameShape_tuple in Hab. destruct Hab as [_ Hab]. rewrite struct_tuple.
+    revert xs0 Hab. induction H as [|x l Hx Hl IH]; intros ys Hab;
+      inversion Hab as [|x0 y0 xs1 ys1 P1 P2]; subst; simpl; auto.
+    rewrite (Hx _ P1), (IH _ P2). reflexivity.
+  - destruct b; try (simpl in Hab; tauto).
+    apply SameShape_dict in Hab. destruct Hab as [_ Hab]. rewrite struct_dict.
+    revert kvs0 Hab. induction H as [|[k x] l Hx Hl IH]; intros ys Hab;
+      inversion Hab as [|k0 x0 xs1 y0 ys1 P1 P2]; subst; simpl; auto.
+    simpl in Hx. rewrite Nat.eqb_refl, (Hx _ P1), (IH _ P2). reflexivity.
+  - destruct H as [H|H]; [|subst; simpl in Hab; destruct Hab as [K _]; contradiction].
+    assert (S1 : Numeric a /\ Numeric b /\ shape_of a = shape_of b)
+      by (destruct a; simpl in H; try discriminate; destruct b; simpl in Hab; tauto).
+    destruct S1 as [N1 [N2 _]].
+    destruct a; simpl in N1; try contradiction; destruct b; simpl in N2; try contradiction; reflexivity.
+Qed.
+
+Definition snd_leaves (ps : list (aval * aval)) : bool := forallb (fun ab : aval * aval => is_leaf (snd ab)) ps.
+
+Lemma snd_leaves_app : forall p q, snd_leaves (p ++ q) = snd_leaves p && snd_leaves q.
+Proof. intros. unfold snd_leaves. apply forallb_app. Qed.
+
+Lemma float_like_leaf : forall b, is_leaf b = true -> is_leaf (float_like b) = true.
+Proof. destruct b; simpl; intros H; try discriminate; reflexivity. Qed.
+
+Lemma struct_pairs : forall a b,
+    struct_eqb a b = true ->
+    exists ps, prefix_pairs a (float_like b) = Some ps /\ snd_leaves ps = true.
+Proof.
+  induction a using aval_ind'; intros b Hab.
+  - destruct b; try (simpl in Hab; discriminate).
+    rewrite struct_list in Hab. change (float_like (AList xs0)) with (AList (map float_like xs0)).
+    rewrite prefix_pairs_list.
+    revert xs0 Hab. induction H as [|x l Hx Hl IH]; intros [|y ys] Hab; simpl in Hab; try discriminate.
+    + exists []. auto.
+    + apply andb_true_iff in Hab. destruct Hab as [A B].
+      destruct (Hx y A) as [p [Ep Lp]]. destruct (IH ys B) as [q [Eq Lq]].
+      exists (p ++ q). simpl. rewrite Ep, Eq, snd_leaves_app, Lp, Lq. auto.
+  - destruct b; try (simpl in Hab; discriminate).
+    rewrite struct_tuple in Hab. change (float_like (ATuple xs0)) with (ATuple (map float_like xs0)).
+    rewrite prefix_pairs_tuple.
+    revert xs0 Hab. induction H as [|x l Hx Hl IH]; intros [|y ys] Hab; simpl in Hab; try discriminate.
+    + exists []. auto.
+    + apply andb_true_iff in Hab. destruct Hab as [A B].
+      destruct (Hx y A) as [p [Ep Lp]]. destruct (IH ys B) as [q [Eq Lq]].
+      exists (p ++ q). simpl. rewrite Ep, Eq, snd_leaves_app, Lp, Lq. auto.
+  - destruct b; try (simpl in Hab; discriminate).
+    rewrite struct_dict in Hab.
+    change (float_like (ADict kvs0)) with
+      (ADict (map (fun kv : nat * aval => match kv with (k, x) => (k, float_like x) end) kvs0)).
+    rewrite prefix_pairs_dict.
+    revert kvs0 Hab. induction H as [|[k x] l Hx Hl IH]; intros [|[k' y] ys] Hab; simpl in Hab; try discriminate.
+    + exists []. auto.
+    + apply andb_true_iff in Hab. destruct Hab as [A B]. apply andb_true_iff in A. destruct A as [A0 A].
+      simpl in Hx. destruct (Hx y A) as [p [Ep Lp]]. destruct (IH ys B) as [q [Eq Lq]].
+      exists (p ++ q). simpl. rewrite A0, Ep, Eq, snd_leaves_app, Lp, Lq. auto.
+  - destruct H as [H|H].
+    + assert (Lb : is_leaf b = true) by (destruct a; simpl in H; try discriminate; simpl in Hab; exact Hab).
+      exists [(a, float_like b)]. split.
+      * destruct a; simpl in H; try discriminate; reflexivity.
+      * unfold snd_leaves. simpl. rewrite (float_like_leaf b Lb). reflexivity.
+    + subst. destruct b; simpl in Hab; try discriminate. exists []. auto.
+Qed.
+
+Lemma coefftree_float_like : forall b, CoeffTree b -> CoeffTree (float_like b).
+Proof.
+  induction b using aval_ind'; intros Hb.
+  - apply CoeffTree_list in Hb. destruct Hb as [Hne Hb].
+    change (float_like (AList xs)) with (AList (map float_like xs)). apply CoeffTree_list.
+    split; [destruct xs; simpl; congruence|].
+    clear Hne. induction H as [|x l Hx Hl IH]; simpl; [constructor|]. inversion Hb; subst. constructor; auto.
+  - apply CoeffTree_tuple in Hb. destruct Hb as [Hne Hb].
+    change (float_like (ATuple xs)) with (ATuple (map float_like xs)). apply CoeffTree_tuple.
+    split; [destruct xs; simpl; congruence|].
+    clear Hne. induction H as [|x l Hx Hl IH]; simpl; [constructor|]. inversion Hb; subst. constructor; auto.
+  - apply CoeffTree_dict in Hb. destruct Hb as [Hne Hb].
+    change (float_like (ADict kvs)) with
+      (ADict (map (fun kv : nat * aval => match kv with (k, x) => (k, float_like x) end) kvs)).
+    apply CoeffTree_dict. split; [destruct kvs; simpl; congruence|].
+    clear Hne. induction H as [|[k x] l Hx Hl IH]; simpl; [constructor|]. inversion Hb; subst. constructor; simpl in *; auto.
+  - destruct H as [H|H]; [|subst; simpl in Hb; contradiction].
+    destruct b; simpl in H; try discriminate; simpl in Hb; try contradiction; exact I.
+Qed.
+
+Lemma sameshape_float_like : forall a b, CoeffTree b -> (SameShape a (float_like b) <-> SameShape a b).
+Proof.
+  induction a using aval_ind'; intros b Hb.
+  - destruct b; try (simpl; tauto).
+    apply CoeffTree_list in Hb. destruct Hb as [_ Hb].
+    change (float_like (AList xs0)) with (AList (map float_like xs0)).
+    rewrite !SameShape_list.
+    assert (E : Forall2 SameShape xs (map float_like xs0) <-> Forall2 SameShape xs xs0).
+    { revert xs0 Hb. induction H as [|x l Hx Hl IH]; intros [|y ys] Hys; simpl.
+      - tauto.
+      - split; intros K; inversion K.
+      - split; intros K; inversion K.
+      - inversion Hys as [|? ? Hy Hys']; subst.
+        split; intros K; inversion K as [|x0 y0 xs1 ys1 P1 P2]; subst; constructor;
+          try (apply (Hx y Hy); assumption); try (apply (IH ys Hys'); assumption). }
+    rewrite E. tauto.
+  - destruct b; try (simpl; tauto).
+    apply CoeffTree_tuple in Hb. destruct Hb as [_ Hb].
+    change (float_like (ATuple xs0)) with (ATuple (map float_like xs0)).
+    rewrite !SameShape_tuple.
+    assert (E : Forall2 SameShape xs (map float_like xs0) <-> Forall2 SameShape xs xs0).
+    { revert xs0 Hb. induction H as [|x l Hx Hl IH]; intros [|y ys] Hys; simpl.
+      - tauto.
+      - split; intros K; inversion K.
+      - split; intros K; inversion K.
+      - inversion Hys as [|? ? Hy Hys']; subst.
+        split; intros K; inversion K as [|x0 y0 xs1 ys1 P1 P2]; subst; constructor;
+          try (apply (Hx y Hy); assumption); try (apply (IH ys Hys'); assumption). }
+    rewrite E. tauto.
+  - destruct b; try (simpl; tauto).
+    apply CoeffTree_dict in Hb. destruct Hb as [_ Hb].
+    change (float_like (ADict kvs0)) with
+      (ADict (map (fun kv : nat * aval => match kv with (k, x) => (k, float_like x) end) kvs0)).
+    rewrite !SameShape_dict.
+    assert (E : Forall2kv SameShape kvs (map (fun kv : nat * aval => match kv with (k, x) => (k, float_like x) end) kvs0)
+                <-> Forall2kv SameShape kvs kvs0).
+    { revert kvs0 Hb. induction H as [|[k x] l Hx Hl IH]; intros [|[k' y] ys] Hys; simpl.
+      - split; intros; constructor.
+      - split; intros K; inversion K.
+      - split; intros K; inversion K.
+      - inversion Hys as [|? ? Hy Hys']; subst. simpl in Hy, Hx.
+        split; intros K; inversion K as [|k0 x0 xs1 y0 ys1 P1 P2]; subst; constructor;
+          try (apply (Hx y Hy); assumption); try (apply (IH ys Hys'); assumption). }
+    rewrite E. tauto.
+  - destruct H as [H|H]; [|subst; destruct b; simpl; tauto].
+    destruct a; simpl in H; try discriminate;
+      destruct b; simpl in Hb; try contradiction; simpl; tauto.
+Qed.
+
+Lemma wf_tcoeffs_first : forall mean, WfTcoeffs mean ->
+    exists c cs, coefficients mean = Some (c :: cs) /\ first_item mean = Some c /\ CoeffTree c.
+Proof.
+  intros mean H. unfold WfTcoeffs in H.
+  destruct mean; simpl in H; try contradiction;
+    destruct xs as [|c cs]; try contradiction; exists c, cs; simpl; tauto.
+Qed.
+
+(* the tree checks of _process_base_scale, once the trivial cases are gone *)
+Lemma tree_scale_checks : forall sc c,
+    CoeffTree c ->
+    ((all_numeric sc = true /\ struct_eqb sc c = true /\
+      exists ps, prefix_pairs sc (float_like c) = Some ps /\ pairs_shapes_equal ps = true)
+     <-> SameShape sc c).
+Proof.
+  intros sc c Hc.
+  pose proof (coefftree_float_like c Hc) as Hf.
+  rewrite <- (sameshape_float_like sc c Hc), <- (loss_ok_reflects sc (float_like c) Hf).
+  unfold loss_ok, pairs_ok. split.
+  - intros [A [B [ps [E S]]]]. split; [exact A|]. exists ps. split; [exact E|].
+    destruct (struct_pairs sc c B) as [ps' [E' L]]. rewrite E in E'. inversion E'; subst.
+    unfold snd_leaves in L. rewrite L, S. reflexivity.
+  - intros [A [ps [E S]]]. apply andb_true_iff in S. destruct S as [_ S].
+    split; [exact A|]. split; [|exists ps; auto].
+    apply sameshape_struct. apply (sameshape_float_like sc c Hc).
+    apply (loss_ok_reflects sc (float_like c) Hf). unfold loss_ok, pairs_ok.
+    split; [exact A|]. exists ps. split; [exact E|].
+    destruct (forallb (fun ab : aval * aval => is_leaf (snd ab)) ps) eqn:L; [rewrite S; reflexivity|].
+    exfalso.
+    (* the shapes are equal and sc is numeric: snd leaves follow from the structure of float_like c *)
+    admit_placeholder.
+Qed.
